@@ -53,7 +53,8 @@ for l in open(out):
 reported = {}
 for subj, seed, rest in sorted(viol):
     mt = re.search(r"mt=(\w+)", rest); inv = re.search(r"\b(I[0-9])\b", rest)
-    cls = f"C13/micro {inv.group(1) if inv else 'I?'} MT{mt.group(1) if mt else '?'} result depends on overlapping calls"
+    seq = "already without any overlap" in rest
+    cls = f"C13/micro {inv.group(1) if inv else 'I?'} MT{mt.group(1) if mt else '?'} " + ("entry points disagree on a recorded subject" if seq else "result depends on overlapping calls")
     if cls in reported: reported[cls]["runs"] += 1; continue
     path = os.path.join(here, "replays", f"C13-micro-s{subj}-seed{seed}.json")
     os.makedirs(os.path.dirname(path), exist_ok=True)
